@@ -187,6 +187,7 @@ def run_check(pid, tier, seed, out=sys.stdout):
             new.append((sig, vs))
     rc = 0
     replays = []
+    unconfirmed = []
     for sig, vs in new:
         v = min(vs, key=lambda x: len(json.dumps(x.case, default=repr)))
         # determinism: the same case must fail the same way twice, else it is our bug
@@ -199,14 +200,18 @@ def run_check(pid, tier, seed, out=sys.stdout):
                 out.write('INTERNAL ERROR replaying %s: %s\n' % (sig, traceback.format_exc()))
             sigs.append(sorted(set(a.signature for a in again)) if again is not None else None)
         if sigs[0] is None or sigs[0] != sigs[1] or sig not in sigs[0]:
-            out.write('INTERNAL ERROR: violation %s of %s did not replay deterministically (%r)\n' % (sig, pid, sigs))
-            rc = max(rc, 2)
+            # not trusted: reported, never counted as a violation; it only decides the exit status when nothing else was confirmed
+            out.write('UNCONFIRMED (did not replay identically twice from a fresh state, not reported as a violation): %s of %s (%r)\n' % (sig, pid, sigs))
+            unconfirmed.append(sig)
             continue
         path = _write_replay(pid, v)
         replays.append(path)
         out.write('VIOLATION property=%s replay=%s\n' % (pid, path))
         out.write('  signature: %s\n  %s\n  (%d case(s) with this signature in this run)\n' % (sig, v.message, len(vs)))
         rc = max(rc, 1)
+    if unconfirmed and rc == 0:
+        out.write('INTERNAL ERROR: %d violation signature(s) of %s could not be replayed deterministically and none was confirmed\n' % (len(unconfirmed), pid))
+        rc = 2
     for sig, (k, vs) in known_hit.items():
         out.write('KNOWN-FINDING: property=%s %s [%s; %d case(s) this run]\n' % (pid, k.get('what', sig), sig, len(vs)))
     missing = [s for s in check.expect_sites if s not in total.covered]
@@ -232,14 +237,15 @@ def run_check(pid, tier, seed, out=sys.stdout):
         'jobs': len(jobs),
         'workers': nproc,
         'known_findings_hit': sorted(known_hit),
-        'new_violation_signatures': [s for s, _ in new],
+        'new_violation_signatures': [s for s, _ in new if s not in unconfirmed],
+        'unconfirmed_signatures': unconfirmed,
         'replays': replays,
         'repo': REPO,
     }
     ev = {
         'property_id': pid, 'tier': tier, 'seed': seed, 'level': 'model_checking',
         'coverage': cov, 'assumptions': list(check.assumptions), 'wall_s': round(wall, 3),
-        'violations': len(new),
+        'violations': len(new) - len(unconfirmed),
     }
     os.makedirs(EVIDENCE_DIR, exist_ok=True)
     with open(os.path.join(EVIDENCE_DIR, pid + '.json'), 'w') as f:
